@@ -80,7 +80,7 @@ SEARCHES = {
                   "random create/delete/publish histories over 2 topic names x 3 subscription names, incl. racing creates and held topic handles"),
     "order":     (["order", 40], ["order", 400], "2-4 concurrent publishers x 3 messages on a 2-thread runtime, 2 subscriptions; 4 OS threads racing to create 400 / 4000 absent topic names"),
     "names":     (["names", 3], ["names", 5], "all strings = stem + suffix over {p,t,/,s,e-acute,-} up to the given suffix length, 24 stems"),
-    "rpc":       (["rpc"], ["rpc"], "14 scripted gRPC scenarios over a unix socket: pull limits and waiting, batch parsing, in-stream modack, streaming limits and control messages, namespace status codes, malformed fields, list walks and content identity, two parked pulls, HTTP push payload content, a 300-topic list walk, several consumers of one subscription (stream + unary pull + second subscription + delete), concurrent publishers into an acknowledging stream, a multi-id deadline extension, 150 rounds of a unary Pull racing a Publish on a 4-thread runtime"),
+    "rpc":       (["rpc"], ["rpc"], "15 scripted gRPC scenarios over a unix socket: pull limits and waiting, batch parsing, in-stream modack, streaming limits and control messages, namespace status codes, malformed fields, list walks and content identity, two parked pulls, HTTP push payload content, a 300-topic list walk, several consumers of one subscription (stream + unary pull + second subscription + delete), concurrent publishers into an acknowledging stream, a multi-id deadline extension, 150 rounds of a unary Pull racing a Publish on a 4-thread runtime, three StreamingPull streams sharing one subscription"),
     "tokens":    (["tokens", 22], ["tokens", 27], "page-token codec (src/api/page_token.rs mounted by path): encode/decode round trip for every offset below 2^22 (thorough: 2^27), every byte value at every byte position over 3 backgrounds, 200000 random 64-bit offsets; 200000 hostile strings never panic"),
     "paging":    (["paging", 7], ["paging", 12], "page walks over 0,1,2,n resources in 2 projects, 11 page sizes x 6 start offsets, 3 list operations"),
 }
